@@ -626,7 +626,7 @@ func checkMeta(m metaCmp, s *gen.Spec, v verParts, p *dec.Package, wantArch stri
 				m.viol("changelog-entry-count", map[string]any{"times": len(times), "titles": len(titles), "texts": len(texts), "want": len(c.ChangelogEntries)})
 			} else {
 				for i, ce := range c.ChangelogEntries {
-					if times[i] != ce.Date || titles[i] != ce.Packager+" - "+ce.Semver || !strings.Contains(texts[i], ce.Notes[0]) {
+					if times[i] != ce.Date || titles[i] != ce.Packager+" - "+ce.Semver || len(ce.Notes) > 0 && !strings.Contains(texts[i], ce.Notes[0]) {
 						m.viol("changelog-entry", map[string]any{"i": i, "time": times[i], "title": titles[i], "text": texts[i], "want": ce})
 					}
 				}
